@@ -400,3 +400,147 @@ Lemma resolve_in_progress_is_error (r : registry) (s : settings) (fo : nat) (id 
   lookup r id = Some t -> cache_get c id = Some CRecursive ->
   resolve_go r s (S fo) id (c, ws) = XErr (XRecursive id).
 Proof. intros L G. cbn [resolve_go fst]. rewrite L, G. reflexivity. Qed.
+
+(** ** boolean forms of the hypotheses (evaluated on concrete registries) *)
+Definition entries (r : registry) : list (nat * (N * ty)) := combine (seq 0 (List.length r)) r.
+
+Lemma nth_error_entries {A} : forall (l : list A) off k e,
+  nth_error l k = Some e -> In ((off + k)%nat, e) (combine (seq off (List.length l)) l).
+Proof.
+  induction l as [|x l IH]; intros off k e H; [destruct k; discriminate|].
+  destruct k as [|k]; cbn in *.
+  - inversion H; subst. left. f_equal. lia.
+  - right. replace (off + S k)%nat with (S off + k)%nat by lia. apply IH; assumption.
+Qed.
+
+Lemma lookup_entry r id t :
+  lookup r id = Some t -> exists i, In (N.to_nat id, (i, t)) (entries r) /\ In (i, t) r.
+Proof.
+  unfold lookup, resolve. destruct (N.ltb id _); [|discriminate].
+  destruct (nth_error r (N.to_nat id)) as [[i t']|] eqn:E; [|discriminate].
+  intros H; inversion H; subst. exists i. split.
+  - apply (nth_error_entries r 0 (N.to_nat id)); assumption.
+  - eapply nth_error_In; eauto.
+Qed.
+
+Definition rankedb (r : registry) (rk : list nat) : bool :=
+  forallb (fun ie =>
+             let i := fst ie in
+             let t := snd (snd ie) in
+             Nat.leb (nth i rk 0%nat) (List.length r) &&
+             forallb (fun j => Nat.ltb (nth (N.to_nat j) rk 0%nat) (nth i rk 0%nat)) (elem_children (t_def t)))
+          (entries r).
+
+Lemma rankedb_ranked r rk : rankedb r rk = true -> ranked r (fun id => nth (N.to_nat id) rk 0%nat).
+Proof.
+  unfold rankedb. rewrite forallb_forall. intros H id t L.
+  destruct (lookup_entry r id t L) as (i & Hin & _). specialize (H _ Hin). cbn in H.
+  apply andb_prop in H as [H1 H2]. split; [apply Nat.leb_le; exact H1|].
+  apply Forall_forall. intros j Hj. rewrite forallb_forall in H2. apply Nat.ltb_lt. apply H2; exact Hj.
+Qed.
+
+Definition fields_lexb (fs : list field) : bool :=
+  forallb (fun f => match f_name f with Some n => ident_lexb n | None => true end) fs.
+
+Definition names_lexb (r : registry) : bool :=
+  forallb (fun e => match t_def (snd e) with
+                    | TDComposite fs => fields_lexb fs
+                    | TDVariant vs => forallb (fun v => ident_lexb (v_name v) && fields_lexb (v_fields v)) vs
+                    | _ => true
+                    end) r.
+
+Lemma fields_lexb_lex fs : fields_lexb fs = true -> fields_lex fs.
+Proof.
+  unfold fields_lexb. rewrite forallb_forall. intros H f n Hin Hn. specialize (H f Hin).
+  rewrite Hn in H. exact H.
+Qed.
+
+Lemma names_lexb_lex r : names_lexb r = true -> names_lex r.
+Proof.
+  unfold names_lexb. rewrite forallb_forall. intros H id t L.
+  destruct (lookup_entry r id t L) as (i & _ & Hin). specialize (H _ Hin). cbn in H.
+  destruct (t_def t); auto.
+  - apply fields_lexb_lex; exact H.
+  - rewrite forallb_forall in H. intros v Hv. specialize (H v Hv).
+    apply andb_prop in H as [H1 H2]. split; [exact H1|apply fields_lexb_lex; exact H2].
+Qed.
+
+Definition tg_goodb {A} (x : result A) : bool :=
+  match x with Panic _ => false | Err EOutOfFuel => false | _ => true end.
+
+Lemma tg_goodb_good {A} (x : result A) : tg_goodb x = true -> tg_good x.
+Proof. destruct x as [a|e|m]; cbn; auto; [destruct e; cbn; auto|]; discriminate. Qed.
+
+Definition tg_totalb (r : registry) (s : settings) : bool :=
+  forallb (fun ie =>
+             let id := N.of_nat (fst ie) in
+             let t := snd (snd ie) in
+             negb (is_composite_or_variant (t_def t)) ||
+             (tg_goodb (path_omit_generics r s id) && tg_goodb (has_unused_type_params r s t)))
+          (entries r).
+
+Lemma tg_totalb_total r s : tg_totalb r s = true -> tg_total r s.
+Proof.
+  unfold tg_totalb. rewrite forallb_forall. intros H id t L Hcv.
+  destruct (lookup_entry r id t L) as (i & Hin & _). specialize (H _ Hin). cbn in H.
+  rewrite N2Nat.id, Hcv in H. cbn in H. apply andb_prop in H as [H1 H2].
+  split; apply tg_goodb_good; assumption.
+Qed.
+
+Theorem example_total_b r s rk :
+  rankedb r rk = true -> names_lexb r = true -> tg_totalb r s = true ->
+  forall id ws, good_outcome (example_rust r s id ws).
+Proof.
+  intros H1 H2 H3. apply example_total with (rk := fun id => nth (N.to_nat id) rk 0%nat).
+  - apply rankedb_ranked; exact H1.
+  - apply names_lexb_lex; exact H2.
+  - apply tg_totalb_total; exact H3.
+Qed.
+
+(** ** the hypotheses are satisfiable: a registry with recursion through a
+    Vec field, a generic struct with an unused parameter, an enum, an array of
+    tuples and an explicit compact field *)
+Definition demo_settings : settings :=
+  mk_settings "types" true dreg_empty [] None None
+              (Some [":"; ":"; "codec"; ":"; ":"; "Compact"]) true AStd.
+
+Definition demo_registry : registry :=
+  [ (0, mk_ty ["a"; "Tree"] [] (TDComposite [mk_field (Some "v") 2 (Some "u16") []; mk_field (Some "kids") 1 (Some "Vec<Tree>") []]) []);
+    (1, mk_ty [] [] (TDSequence 0) []);
+    (2, mk_ty [] [] (TDPrimitive PU16) []);
+    (3, mk_ty ["a"; "G"] [mk_tparam "T" (Some 2)] (TDComposite []) []);
+    (4, mk_ty ["a"; "E"] [] (TDVariant [mk_variant "A" [] 0 []; mk_variant "B" [mk_field None 6 None []] 1 []]) []);
+    (5, mk_ty [] [] (TDTuple [2; 3]) []);
+    (6, mk_ty [] [] (TDArray 3 5) []);
+    (7, mk_ty [] [] (TDCompact 2) []);
+    (8, mk_ty ["a"; "C"] [] (TDComposite [mk_field None 7 (Some "Compact<u16>") []]) []) ]%N.
+
+Definition demo_ranks : list nat := [0; 1; 0; 0; 0; 1; 2; 1; 0]%nat.
+
+Example demo_hypotheses :
+  (rankedb demo_registry demo_ranks && names_lexb demo_registry && tg_totalb demo_registry demo_settings) = true.
+Proof. vm_compute. reflexivity. Qed.
+
+(** the theorem applies to it, and the outcomes are the expected ones *)
+Example demo_recursive_is_error :
+  example_rust demo_registry demo_settings 0 [7; 8; 9]%N = XErr (XRecursive 1).
+Proof. vm_compute. reflexivity. Qed.
+
+Example demo_marker :
+  example_rust demo_registry demo_settings 3 []%N =
+  XOk ["types"; ":"; ":"; "a"; ":"; ":"; "G"; "("; ":"; ":"; "core"; ":"; ":"; "marker"; ":"; ":"; "PhantomData"; ")"]%string.
+Proof. vm_compute. reflexivity. Qed.
+
+Lemma hypotheses_satisfiable :
+  exists (r : registry) (s : settings) (rk : list nat),
+    rankedb r rk = true /\ names_lexb r = true /\ tg_totalb r s = true /\
+    (exists id ws e, example_rust r s id ws = XErr e) /\
+    (exists id ws t, example_rust r s id ws = XOk t).
+Proof.
+  exists demo_registry, demo_settings, demo_ranks.
+  pose proof demo_hypotheses as H.
+  apply andb_prop in H as [H H3]. apply andb_prop in H as [H1 H2].
+  repeat split; auto.
+  - exists 0%N, [7; 8; 9]%N, (XRecursive 1). exact demo_recursive_is_error.
+  - eexists 3%N, []%N, _. exact demo_marker.
+Qed.
